@@ -102,6 +102,29 @@ def build_traces(path, tier, seed):
         out2_i = gn.interp2d(q2_i, xs_i, f_i)
         add({"kind": "interp2d", "xf": enc_seq(nodes_i), "cols": [enc_seq(f_i[:, c]) for c in range(2)], "x": enc_seq(q2_i),
              "out": [enc_seq(out2_i[:, c]) for c in range(2)]}, {"kind": "interp2d", "nodes": nodes_i, "node_type": "int ndarray"})
+    # evenly and ALMOST evenly spaced nodes (time stamps): queries on the nodes, one ulp and a tiny fraction of the spacing on
+    # either side of them, and in the sliver before a node that is slightly late -- "the greatest node not exceeding the query"
+    for j in range(8 if tier == "quick" else 60):
+        k = int(rng.integers(3, 40))
+        dx = float([0.01, 0.005, 0.1, 1.0 / 3.0, 1.0e-9, 2.0, 0.02, 1.0e-3][j % 8])
+        t0 = float(rng.choice([0.0, 0.0, 5.0, -1.0]))
+        xs_e = t0 + dx * np.arange(k)
+        if j % 3 == 1:
+            xs_e[int(rng.integers(1, k))] += float(rng.choice([1e-5, 3e-6, -4e-6])) * dx          # one stamp slightly late / early
+        elif j % 3 == 2:
+            xs_e = xs_e + dx * 1e-7 * rng.uniform(-1, 1, size=k)                               # jitter far below the spacing
+            xs_e = np.sort(xs_e)
+        y_e = rng.standard_normal(k)
+        pick = xs_e[rng.integers(1, k, size=min(k - 1, 6))]
+        q_e = np.concatenate([pick, np.nextafter(pick, -np.inf), np.nextafter(pick, np.inf), pick - 1e-10 * dx, pick - 1e-6 * dx, pick + 1e-10 * dx,
+                              pick - 0.5 * dx, [xs_e[0], xs_e[-1], xs_e[-1] + dx]])
+        q_e = q_e[q_e >= xs_e[0]]
+        out_e = gn.interp_left(q_e, xs_e, y_e)
+        add({"kind": "interp_left", "xs": enc_seq(xs_e), "y": enc_seq(y_e), "x0": enc_seq(q_e), "out": enc_seq(out_e)},
+            {"kind": "interp_left", "nodes": "evenly / almost evenly spaced, dx=%g, k=%d, variant %d" % (dx, k, j % 3)})
+        idx_e = gn.interp_left(q_e, xs_e)
+        add({"kind": "interp_left", "xs": enc_seq(xs_e), "y": enc_seq(np.arange(k)), "x0": enc_seq(q_e), "out": enc_seq(idx_e)},
+            {"kind": "interp_left", "nodes": "evenly / almost evenly spaced, dx=%g, k=%d, variant %d" % (dx, k, j % 3), "y": None})
     nrand = 30 if tier == "quick" else 250
     for i in range(nrand):
         k = int(rng.integers(2, 12))
